@@ -14,6 +14,7 @@ type verifStubConn struct {
 	doMulti   func(ctx context.Context, multi []Completed) []RedisResult
 	doCache   func(ctx context.Context, cmd Cacheable, ttl time.Duration) RedisResult
 	log       [][]string
+	slog      [][]string // commands that arrived through DoStream / DoMultiStream / Receive
 	closed    int
 	acquired  *verifWire
 	stored    int
@@ -64,15 +65,20 @@ func (c *verifStubConn) DoMultiCache(ctx context.Context, multi ...CacheableTTL)
 	return &redisresults{s: rs}
 }
 func (c *verifStubConn) Receive(ctx context.Context, subscribe Completed, fn func(message PubSubMessage)) error {
+	c.slog = append(c.slog, subscribe.Commands())
 	if c.receive != nil {
 		return c.receive(ctx, subscribe, fn)
 	}
 	return nil
 }
 func (c *verifStubConn) DoStream(ctx context.Context, cmd Completed) RedisResultStream {
+	c.slog = append(c.slog, cmd.Commands())
 	return RedisResultStream{}
 }
 func (c *verifStubConn) DoMultiStream(ctx context.Context, multi ...Completed) MultiRedisResultStream {
+	for _, cmd := range multi {
+		c.slog = append(c.slog, cmd.Commands())
+	}
 	return MultiRedisResultStream{}
 }
 func (c *verifStubConn) Info() map[string]RedisMessage { return nil }
